@@ -124,6 +124,39 @@ def modOps (s : ModSt) (ln : Nat) (t : List String) : Option (ModSt × List Stri
     let st : RState Float := { centers := p.centers0, centersIncr := List.replicate nd 0.0, k := k0, kIncr := 0.0,
                                stage := 0, accWork := 0.0, restraintFE := 0.0 }
     some ({ s with m := { s.m with biases := s.m.biases ++ [(name, .restr idx p st)] }, modelled := true }, [])
+  -- M.meta <name> <nd> cvnames.. key=value...
+  | "M.meta" :: name :: nd :: r =>
+    let nd := nOfTok nd
+    let idx := s.cvIdx (r.take nd); let kv := r.drop nd
+    let get (k : String) : Option String := (kv.find? (fun t => t.startsWith (k ++ "="))).map (fun t => (t.drop (k.length + 1)).toString)
+    let getF (k : String) (d : Float) : Float := ((get k).map fOfTok).getD d
+    let getI (k : String) (d : Int) : Int := ((get k).map iOfTok).getD d
+    let getL (k : String) : List Float := ((get k).map fun v => ((v.splitOn ",").filter (· ≠ "")).map fOfTok).getD []
+    let getB (k : String) : List Bool := ((get k).map fun v => ((v.splitOn ",").filter (· ≠ "")).map (· != "0")).getD (List.replicate nd false)
+    let vs : List (CvSt Float) := getCvs s.m.cvs idx
+    let lo := getL "lo"; let hi := getL "hi"; let w := vs.map (·.width)
+    let useGrids := getI "grids" 1 != 0
+    let nx := if useGrids then List.zipWith (fun (lh : Float × Float) w => nbinsRound lh.1 lh.2 w) (lo.zip hi) w else []
+    let freq := getI "freq" 1
+    let gf := getI "gridsfreq" 0
+    let p : MetaParams Float := {
+      per := vs.map (·.per), cvWidth := w, hillWeight := getF "weight" 0.01, freq := freq,
+      sigmas := getL "sigmas", hillWidth := getF "hillwidth" 0.0, useGrids := useGrids,
+      gridsFreq := if gf == 0 then freq else gf, keepHills := getI "keephills" 0 != 0,
+      wellTempered := getI "wt" 0 != 0, biasTempKB := getF "tkb" 1.0, expand := getB "expand",
+      gridPeriodic := getB "gper" }
+    let nt := (ntOf 1 nx).toNat
+    let st : MetaState Float := { hills := [], nNew := 0, offGrid := [], g := { nx := nx, lo := lo, w := w },
+                                  gridE := if useGrids then List.replicate nt 0.0 else [],
+                                  gridG := if useGrids then List.replicate (nt * nd) 0.0 else [] }
+    some ({ s with m := { s.m with biases := s.m.biases ++ [(name, .mtd idx p st)] }, modelled := true }, [])
+  | ["mt.dump", name] =>
+    match findBias s name with
+    | some (.mtd _ p st) =>
+      some (s, [out ln "nx" (isTok st.g.nx), out ln "nhills" (iTok st.hills.length), out ln "noff" (iTok st.offGrid.length)]
+               ++ (if p.useGrids then [out ln "gridE" (fsTok st.gridE), out ln "gridG" (fsTok st.gridG)] else [])
+               ++ [out ln "hillw" (fsTok (st.hills.map (·.w)))])
+    | _ => some (s, [])
   | ["r.dump", name] =>
     match findBias s name with
     | some (.restr _ _ st) =>
